@@ -20,11 +20,11 @@ theorem ranks_irrelevant {α : Type} (o : Ops α) (t : Table α) (P P' : Nat) (h
 
 /-- `main` returns a table exactly when the two `data[:,0]` reads succeed. -/
 theorem defined_iff {α : Type} (o : Ops α) (t : Table α) (P : Nat) :
-    (main o t P).isSome = true ↔ 2 ≤ t.rows.length ∧ 2 ≤ t.nUniq := by
+    (main o t P).isSome = true ↔ 1 ≤ t.rows.length ∧ 1 ≤ t.nUniq := by
   unfold main
-  by_cases h1 : t.rows.length < 2
+  by_cases h1 : t.rows.length < 1
   · simp [h1]
-  · by_cases h2 : t.nUniq < 2
+  · by_cases h2 : t.nUniq < 1
     · simp [h1, h2]
     · simp [h1, h2]; omega
 
@@ -241,9 +241,10 @@ example : ESR.Rank.sum (ops exE) (((main (ops exE) exT 2).getD []).map (·.prel)
 example : ((main (ops exE) ⟨2, 0, [⟨pinf, fin 1, fin 1, 0, "v0", []⟩, ⟨fin 1, pinf, fin 1, 1, "v1", []⟩]⟩ 1).getD []).map
     (fun r => (r.dl, r.prel)) = [(pinf, fin 0), (pinf, fin 0)] := by decide +kernel
 
-/-- fewer than two variant rows, or fewer than two uniques: `IndexError` -/
-example : main (ops exE) ⟨2, 0, [⟨fin 1, fin 1, fin 1, 0, "v0", []⟩]⟩ 1 = none ∧
-    main (ops exE) ⟨1, 0, [⟨fin 1, fin 1, fin 1, 0, "v0", []⟩, ⟨fin 1, fin 1, fin 1, 0, "v1", []⟩]⟩ 1 = none := by
-  constructor <;> rfl
+/-- no variant row, or no unique: `IndexError`; a single row / a single unique is an ordinary table (F16) -/
+example : main (ops exE) ⟨2, 0, []⟩ 1 = none ∧
+    main (ops exE) ⟨0, 0, [⟨fin 1, fin 1, fin 1, 0, "v0", []⟩, ⟨fin 1, fin 1, fin 1, 0, "v1", []⟩]⟩ 1 = none ∧
+    (main (ops exE) ⟨1, 0, [⟨fin 1, fin 1, fin 1, 0, "v0", []⟩]⟩ 3).isSome = true := by
+  refine ⟨rfl, rfl, ?_⟩; decide +kernel
 
 end ESR.C06
